@@ -4,6 +4,10 @@ package main
 
 import (
 	"bytes"
+	"math/rand"
+	"os"
+	"os/exec"
+	"path/filepath"
 	"encoding/json"
 	"errors"
 	"fmt"
@@ -182,8 +186,8 @@ func (g *concGen) tla() string {
 	var ps []string
 	for _, p := range g.Progs {
 		var ops []string
-		for _, o := range p.Ops {
-			ops = append(ops, fmt.Sprintf("<<%s, %d>>", tlaStr(o[0].(string)), o[1].(int)))
+		for si, o := range p.Ops {
+			ops = append(ops, fmt.Sprintf("<<%s, %d, %d>>", tlaStr(o[0].(string)), o[1].(int), (len(ps)+1)*10+si+1))
 		}
 		ps = append(ps, fmt.Sprintf("[single |-> %s, ops |-> <<%s>>, end |-> %s]", tlaBool(p.Single), strings.Join(ops, ", "), tlaStr(p.End)))
 	}
@@ -903,4 +907,315 @@ func exploreConc(r *Run, g *concGen, only string, timeout time.Duration) *concRe
 		r.sample(map[string]any{"schedule": describeSched(cr.pathTo(e.from), e), "keys": g.Keys})
 	}
 	return cr
+}
+
+// ---- D2: free-running stress under the race detector, recorded and validated by Trace_Conc ---------------
+
+type stressEvent struct {
+	Seq    int64  `json:"-"`
+	E      string `json:"e"`
+	G      int    `json:"g"`
+	Single bool   `json:"single"`
+	Ops    [][]any `json:"ops"`
+	End    string `json:"end"`
+	Res    any    `json:"res"`
+	Call   []any  `json:"call"`
+}
+
+type stressWorker struct {
+	role   string // "w" or "r"
+	id     int
+	events []stressEvent
+}
+
+var stressCtr atomic.Int64
+var stressByGoid sync.Map
+
+func (sw *stressWorker) log(e stressEvent) {
+	e.Seq = stressCtr.Add(1)
+	e.G = sw.id
+	if e.Ops == nil {
+		e.Ops = [][]any{}
+	}
+	if e.Call == nil {
+		e.Call = []any{}
+	}
+	if e.Res == nil {
+		e.Res = []any{}
+	}
+	sw.events = append(sw.events, e)
+}
+
+var stressHookNames = map[int]string{fox.VerifLockWait: "lw", fox.VerifLockAcquired: "la", fox.VerifLoad: "ld", fox.VerifBeforeStore: "bs",
+	fox.VerifAfterStore: "as", fox.VerifAbort: "ab", fox.VerifUnlocked: "ul"}
+
+// runStress drives nW writers and nR readers freely on one router and returns the merged event trace.
+func runStress(seed int64, keys []string, nW, nR, opsPerWorker int, yield bool) []stressEvent {
+	stressCtr.Store(0)
+	rt, err := fox.New()
+	if err != nil {
+		failTool("fox.New: %v", err)
+	}
+	fox.VerifSetHook(func(r *fox.Router, point int) {
+		if r != rt {
+			return
+		}
+		v, ok := stressByGoid.Load(goid())
+		if !ok {
+			return
+		}
+		sw := v.(*stressWorker)
+		if sw.role == "r" {
+			if point == fox.VerifLoad {
+				sw.log(stressEvent{E: "rload"})
+			}
+		} else {
+			sw.log(stressEvent{E: stressHookNames[point]})
+		}
+		if yield {
+			runtime.Gosched() // widen the windows around the critical sections
+		}
+	})
+	defer func() { hookOnce = sync.Once{}; fox.VerifSetHook(nil) }()
+	var wg, wwg sync.WaitGroup
+	var writersDone atomic.Bool
+	workers := []*stressWorker{}
+	var tagCtr atomic.Int64
+	tagCtr.Store(100)
+	kinds := []string{"Handle", "Handle", "Update", "Delete", "Delete"}
+	for i := 1; i <= nW; i++ {
+		sw := &stressWorker{role: "w", id: i}
+		workers = append(workers, sw)
+		wg.Add(1)
+		wwg.Add(1)
+		go func(sw *stressWorker) {
+			defer wg.Done()
+			defer wwg.Done()
+			id := goid()
+			stressByGoid.Store(id, sw)
+			defer stressByGoid.Delete(id)
+			rng := rand.New(rand.NewSource(seed*1000 + int64(sw.id)))
+			for n := 0; n < opsPerWorker; n++ {
+				single := rng.Intn(3) > 0
+				nops := 1
+				if !single {
+					nops = 1 + rng.Intn(3)
+				}
+				ops := make([][]any, nops)
+				for k := range ops {
+					kind := kinds[rng.Intn(len(kinds))]
+					if !single && rng.Intn(12) == 0 {
+						kind = "Truncate"
+					}
+					ops[k] = []any{kind, 1 + rng.Intn(len(keys)), int(tagCtr.Add(1))}
+				}
+				end := "commit"
+				if !single && rng.Intn(3) == 0 {
+					end = "abort"
+				}
+				sw.log(stressEvent{E: "wcall", Single: single, Ops: ops, End: end})
+				apply := func(w writer, o []any) string {
+					kind, k, tag := o[0].(string), o[1].(int), o[2].(int)
+					pat := keys[k-1]
+					var err error
+					switch kind {
+					case "Handle":
+						_, err = w.Handle("GET", pat, tagHandler(tag), fox.WithAnnotation(tagKey{}, tag))
+					case "Update":
+						_, err = w.Update("GET", pat, tagHandler(tag), fox.WithAnnotation(tagKey{}, tag))
+					case "Delete":
+						_, err = w.Delete("GET", pat)
+					case "Truncate":
+						err = w.(*fox.Txn).Truncate("GET")
+					}
+					return errClass(err)
+				}
+				var res []any
+				if single {
+					res = []any{apply(rt, ops[0])}
+				} else {
+					txn := rt.Txn(true)
+					for _, o := range ops {
+						e := apply(txn, o)
+						res = append(res, e)
+						sw.log(stressEvent{E: "wop", Res: e})
+					}
+					sw.log(stressEvent{E: "wend"})
+					if end == "commit" {
+						txn.Commit()
+					} else {
+						txn.Abort()
+					}
+				}
+				sw.log(stressEvent{E: "wret", Res: res})
+			}
+		}(sw)
+	}
+	for j := 1; j <= nR; j++ {
+		sw := &stressWorker{role: "r", id: j}
+		workers = append(workers, sw)
+		wg.Add(1)
+		go func(sw *stressWorker) {
+			defer wg.Done()
+			id := goid()
+			stressByGoid.Store(id, sw)
+			defer stressByGoid.Delete(id)
+			rng := rand.New(rand.NewSource(seed*7777 + int64(sw.id)))
+			// readers keep reading for as long as the writers write (bounded, so that traces stay short)
+			for n := 0; n < opsPerWorker*6 && !writersDone.Load(); n++ {
+				time.Sleep(time.Duration(20+rng.Intn(200)) * time.Microsecond)
+				switch rng.Intn(4) {
+				case 0:
+					sw.log(stressEvent{E: "rcall", Call: []any{"all"}})
+					m := make([]any, len(keys))
+					for i := range m {
+						m[i] = 0
+					}
+					for _, rte := range rt.Iter().All() {
+						for i, p := range keys {
+							if p == rte.Pattern() {
+								m[i] = tagOf(rte)
+							}
+						}
+					}
+					sw.log(stressEvent{E: "rret", Res: []any{m}})
+				case 1:
+					sw.log(stressEvent{E: "rcall", Call: []any{"len"}})
+					n := rt.Len()
+					sw.log(stressEvent{E: "rret", Res: []any{n}})
+				default:
+					k := 1 + rng.Intn(len(keys))
+					sw.log(stressEvent{E: "rcall", Call: []any{"has", k}})
+					var t int
+					switch rng.Intn(3) {
+					case 0:
+						t = tagOf(rt.Route("GET", keys[k-1]))
+					case 1:
+						req, _ := newRequest("GET", "", keys[k-1], "")
+						pw := newPlainWriter()
+						rt.ServeHTTP(pw, req)
+						t, _ = strconv.Atoi(pw.h.Get("X-Tag"))
+						if pw.h.Get("X-Pat") != keys[k-1] {
+							t = 0
+						}
+					default:
+						rte, _ := rt.Reverse("GET", "", keys[k-1])
+						if rte != nil && rte.Pattern() == keys[k-1] {
+							t = tagOf(rte)
+						}
+					}
+					sw.log(stressEvent{E: "rret", Res: []any{t}})
+				}
+			}
+		}(sw)
+	}
+	go func() { wwg.Wait(); writersDone.Store(true) }()
+	wg.Wait()
+	var all []stressEvent
+	for _, sw := range workers {
+		all = append(all, sw.events...)
+	}
+	slices.SortFunc(all, func(a, b stressEvent) int { return int(a.Seq - b.Seq) })
+	// the result of a read is what places its atomic load: copy it from the "rret" line onto the "rload" line
+	pending := map[int]int{}
+	for i := range all {
+		switch all[i].E {
+		case "rload":
+			pending[all[i].G] = i
+		case "rret":
+			if k, ok := pending[all[i].G]; ok {
+				all[k].Res = all[i].Res
+				delete(pending, all[i].G)
+			}
+		}
+	}
+	return all
+}
+
+// stressMain is the entry point of `foxcheck --stress <dir> <seed> <tier>` (run in the -race build): it
+// writes trace-<n>.ndjson files and a matching Gen_Conc.tla into dir.
+func stressMain(dir string, seed int64, tier string) int {
+	runs := 6
+	ops := 40
+	if tier == "thorough" {
+		runs, ops = 60, 150
+	}
+	keySets := [][]string{{"/a", "/a/b", "/a/c", "/ab"}, {"/a/{x}", "/a/b", "/a/b/c", "/a/*{w}/z"}, {"/x/a", "/x/b", "/x/c", "/x/d", "/x"}}
+	for n := 0; n < runs; n++ {
+		keys := keySets[(int(seed)+n)%len(keySets)]
+		nW, nR := []int{2, 3, 4}[n%3], []int{2, 4, 8}[(n/2)%3]
+		procs := []int{2, 4, 16}[n%3]
+		old := runtime.GOMAXPROCS(procs)
+		evs := runStress(seed*100+int64(n), keys, nW, nR, ops, n%2 == 0)
+		runtime.GOMAXPROCS(old)
+		var sb strings.Builder
+		for _, e := range evs {
+			b, _ := json.Marshal(e)
+			sb.Write(b)
+			sb.WriteByte('\n')
+		}
+		os.WriteFile(filepath.Join(dir, fmt.Sprintf("trace-%d.ndjson", n)), []byte(sb.String()), 0o644)
+		g := &concGen{Keys: keys, Readers: nR, MaxReads: 1000000, Broken: "none", Init: make([]int, len(keys))}
+		for i := 0; i < nW; i++ {
+			g.Progs = append(g.Progs, concProg{Single: true, End: "commit", Ops: [][2]any{{"Handle", 1}}})
+		}
+		g.Calls = [][]any{{"len"}}
+		os.WriteFile(filepath.Join(dir, fmt.Sprintf("gen-%d.tla", n)), []byte(g.tla()), 0o644)
+		meta, _ := json.Marshal(map[string]any{"keys": keys, "writers": nW, "readers": nR, "gomaxprocs": procs, "events": len(evs)})
+		os.WriteFile(filepath.Join(dir, fmt.Sprintf("meta-%d.json", n)), meta, 0o644)
+	}
+	return exitOK
+}
+
+// runStressD2 runs the stress driver in the race build, then validates every trace with Trace_Conc.
+func runStressD2(r *Run) {
+	dir := filepath.Join(r.Scratch, "stress")
+	os.MkdirAll(dir, 0o755)
+	raceLog := filepath.Join(r.Scratch, "race")
+	os.MkdirAll(raceLog, 0o755)
+	bin := os.Getenv("FOXCHECK_RACE_BIN")
+	if _, err := os.Stat(bin); err != nil {
+		failTool("race build of the harness not available: %v", err)
+	}
+	cmd := exec.Command(bin, "--stress", dir, fmt.Sprint(r.Seed), r.Tier)
+	cmd.Env = append(os.Environ(), "GORACE=halt_on_error=0 exitcode=0 log_path="+filepath.Join(raceLog, "race"))
+	outb, err := cmd.CombinedOutput()
+	if err != nil {
+		// a crash of the driver is a panic inside fox under concurrency
+		r.violation("stress driver crashed", map[string]any{"kind": "trace", "prescribed": "no panic under concurrent use", "obtained": tail(string(outb), 30)})
+		return
+	}
+	os.Setenv("FOXCHECK_RACE_LOG", raceLog)
+	reportRaces(r, "concurrent stress (writers, readers, transactions)")
+	files, _ := filepath.Glob(filepath.Join(dir, "trace-*.ndjson"))
+	var events int64
+	for n := range files {
+		tr, _ := os.ReadFile(filepath.Join(dir, fmt.Sprintf("trace-%d.ndjson", n)))
+		gen, _ := os.ReadFile(filepath.Join(dir, fmt.Sprintf("gen-%d.tla", n)))
+		meta, _ := os.ReadFile(filepath.Join(dir, fmt.Sprintf("meta-%d.json", n)))
+		res := r.runTLC(tlcOpts{Module: "Trace_Conc", Gen: map[string]string{"Gen_Conc.tla": string(gen)}, Files: map[string]string{"trace.ndjson": string(tr)},
+			Workers: 1, DFS: true, Timeout: pick(r, 5*time.Minute, 20*time.Minute), Tag: fmt.Sprint(n)})
+		nev := int64(strings.Count(string(tr), "\n"))
+		events += nev
+		accepted := res.ExitCode == 0 && !res.Error && res.InvViol == "" && !strings.Contains(res.Output, "Postcondition") && !strings.Contains(res.Output, "postcondition")
+		if !accepted {
+			if res.InvViol == "" && !strings.Contains(strings.ToLower(res.Output), "postcondition") {
+				failTool("Trace_Conc did not run cleanly on trace %d:\n%s", n, tail(res.Output, 40))
+			}
+			keep := filepath.Join(verifDir, "evidence", "replays", fmt.Sprintf("C05-trace-%d-%d.ndjson", r.Seed, n))
+			os.MkdirAll(filepath.Dir(keep), 0o755)
+			os.WriteFile(keep, tr, 0o644)
+			r.violation(fmt.Sprintf("stress trace %d rejected", n), map[string]any{"kind": "trace", "trace_file": keep, "setup": json.RawMessage(meta),
+				"prescribed": "some placement of the unlogged steps (lock, load, store, unlock, reader load) explains every recorded event with every invariant holding",
+				"obtained": tail(res.Output, 25)})
+		}
+		if n == 0 {
+			lines := strings.SplitN(string(tr), "\n", 12)
+			r.sample(map[string]any{"trace_setup": json.RawMessage(meta), "first_events": lines[:min(len(lines), 10)]})
+		}
+		r.addCov("trace_states", res.Distinct)
+	}
+	r.addCov("stress_traces_validated", int64(len(files)))
+	r.addCov("stress_events_validated", events)
+	r.addCov("traces_validated_against_impl", int64(len(files)))
 }
